@@ -129,6 +129,14 @@ IsValidSAW(sa, t, rk) ==
 UnaryText(n, a, s) == [i \in 1..n |-> IF i = n THEN s ELSE a]
 UnarySA(n) == [r \in 1..n |-> n - r]
 
+\* closed-form family: the zigzag integer text 2m, 1, 2m-1, 2, ..., m+1, m, 0 (2m+1 pairwise distinct
+\* symbols): its suffix array is the inverse permutation -- row v holds the position of value v
+\* (MC lemma SuffixIndexMC_C03!ZigzagLemma)
+ZigzagText(m) == [i \in 1..(2 * m + 1) |-> IF i = 2 * m + 1 THEN 0
+                                            ELSE IF i % 2 = 1 THEN 2 * m - (i - 1) \div 2 ELSE i \div 2]
+ZigzagSAat(m, v) == IF v = 0 THEN 2 * m ELSE IF v <= m THEN 2 * v - 1 ELSE 4 * m - 2 * v
+ZigzagSA(m) == [r \in 1..(2 * m + 1) |-> ZigzagSAat(m, r - 1)]
+
 \* the sorted permutation for an admissible order (cubic; MC modules only)
 SortedSAWith(t, ord) ==
     LET n == Len(t)
@@ -202,6 +210,12 @@ BackwardSearchOK(p, t, res) ==
              /\ Len(res.pos) = res.upper - res.lower
              /\ Range(res.pos) = OccPos(Suffix(p, L), t)
              /\ Cardinality(Range(res.pos)) = Len(res.pos)
+
+\* closed form for the unary family A^(n-1)$ (suffix array n-1..0): searching A^m
+UnaryBS(n, m) ==
+    IF m <= n - 1 THEN [kind |-> Complete, lower |-> m, upper |-> n, len |-> m]
+    ELSE IF n >= 2 THEN [kind |-> Partial, lower |-> n - 1, upper |-> n, len |-> n - 1]
+    ELSE [kind |-> Absent, lower |-> 0, upper |-> 0, len |-> 0]
 
 \* ------------------------------------------------------------ FMD / SMEM
 Dollar == 36
